@@ -24,6 +24,7 @@ import (
 	"math/big"
 	"os"
 	"path/filepath"
+	"sort"
 	"strings"
 	"sync"
 	"testing"
@@ -91,6 +92,107 @@ func c52RefEncrypt(d []byte, addr common.Address, id uuid.UUID, pass string, k c
 	}
 	return []byte(fmt.Sprintf(`{"address":"%x","crypto":{"cipher":"aes-128-ctr","ciphertext":"%x","cipherparams":{"iv":"%x"},"kdf":"%s","kdfparams":%s,"mac":"%x"},"id":"%s","version":3}`,
 		addr[:], ct, iv, k.Name, params, mac, id.String()))
+}
+
+// c52RefEncryptV1 writes a version "1" key file: AES-128-CBC with PKCS#7 padding under keccak256(DK[0:16])[0:16],
+// MAC = keccak256(DK[16:32] || ciphertext).
+func c52RefEncryptV1(d []byte, addr common.Address, id uuid.UUID, pass string, k c52KDF, salt, iv []byte) []byte {
+	dk, err := c52Derive(k, pass, salt)
+	if err != nil {
+		panic(err)
+	}
+	block, err := aes.NewCipher(c52Keccak(dk[:16])[:16])
+	if err != nil {
+		panic(err)
+	}
+	padded := append(append([]byte{}, d...), bytes.Repeat([]byte{16}, 16)...)
+	ct := make([]byte, len(padded))
+	cipher.NewCBCEncrypter(block, iv).CryptBlocks(ct, padded)
+	mac := c52Keccak(dk[16:32], ct)
+	return []byte(fmt.Sprintf(`{"address":"%x","crypto":{"cipher":"aes-128-cbc","ciphertext":"%x","cipherparams":{"iv":"%x"},"kdf":"scrypt","kdfparams":{"dklen":%d,"n":%d,"p":%d,"r":%d,"salt":"%x"},"mac":"%x"},"id":"%s","version":"1"}`,
+		addr[:], ct, iv, k.DKLen, k.N, k.P, k.R, salt, mac, id.String()))
+}
+
+type c52Variant struct {
+	name string
+	file []byte
+}
+
+// c52Structural derives structural variants of the crypto object of a key file: every hex member (mac, ciphertext,
+// iv, salt) missing, empty, truncated to every shorter whole number of bytes, cut in the middle of a byte, extended
+// by a byte; every KDF parameter missing, zero, one, string-typed; mac replaced by null / a number / the MAC of nothing.
+func c52Structural(file []byte) (out []c52Variant) {
+	build := func(name string, edit func(top, cr, kp, cp map[string]any)) {
+		var top map[string]any
+		dec := json.NewDecoder(bytes.NewReader(file))
+		dec.UseNumber()
+		if err := dec.Decode(&top); err != nil {
+			panic(err)
+		}
+		cr := top["crypto"].(map[string]any)
+		edit(top, cr, cr["kdfparams"].(map[string]any), cr["cipherparams"].(map[string]any))
+		b, err := json.Marshal(top)
+		if err != nil {
+			panic(err)
+		}
+		out = append(out, c52Variant{name, b})
+	}
+	hexMember := func(label string, get func(cr, kp, cp map[string]any) (map[string]any, string)) {
+		var orig string
+		build(label+":identity", func(_, cr, kp, cp map[string]any) { m, key := get(cr, kp, cp); orig = m[key].(string) })
+		build(label+":missing", func(_, cr, kp, cp map[string]any) { m, key := get(cr, kp, cp); delete(m, key) })
+		build(label+":null", func(_, cr, kp, cp map[string]any) { m, key := get(cr, kp, cp); m[key] = nil })
+		for n := 0; n < len(orig)/2; n++ {
+			n := n
+			build(fmt.Sprintf("%s:first-%d-bytes", label, n), func(_, cr, kp, cp map[string]any) { m, key := get(cr, kp, cp); m[key] = orig[:2*n] })
+			build(fmt.Sprintf("%s:last-%d-bytes", label, n), func(_, cr, kp, cp map[string]any) { m, key := get(cr, kp, cp); m[key] = orig[len(orig)-2*n:] })
+		}
+		build(label+":odd-length", func(_, cr, kp, cp map[string]any) { m, key := get(cr, kp, cp); m[key] = orig[:len(orig)-1] })
+		build(label+":plus-00", func(_, cr, kp, cp map[string]any) { m, key := get(cr, kp, cp); m[key] = orig + "00" })
+		build(label+":plus-ff", func(_, cr, kp, cp map[string]any) { m, key := get(cr, kp, cp); m[key] = orig + "ff" })
+		build(label+":00-plus", func(_, cr, kp, cp map[string]any) { m, key := get(cr, kp, cp); m[key] = "00" + orig })
+		build(label+":uppercase", func(_, cr, kp, cp map[string]any) { m, key := get(cr, kp, cp); m[key] = strings.ToUpper(orig) })
+		build(label+":0x-prefixed", func(_, cr, kp, cp map[string]any) { m, key := get(cr, kp, cp); m[key] = "0x" + orig })
+	}
+	hexMember("mac", func(cr, kp, cp map[string]any) (map[string]any, string) { return cr, "mac" })
+	hexMember("ciphertext", func(cr, kp, cp map[string]any) (map[string]any, string) { return cr, "ciphertext" })
+	hexMember("iv", func(cr, kp, cp map[string]any) (map[string]any, string) { return cp, "iv" })
+	hexMember("salt", func(cr, kp, cp map[string]any) (map[string]any, string) { return kp, "salt" })
+	var params []string
+	build("identity", func(_, _, kp, _ map[string]any) {
+		for name := range kp {
+			if name != "salt" {
+				params = append(params, name)
+			}
+		}
+	})
+	sort.Strings(params)
+	for _, name := range params {
+		name := name
+		build("kdfparams."+name+":missing", func(_, _, kp, _ map[string]any) { delete(kp, name) })
+		build("kdfparams."+name+":zero", func(_, _, kp, _ map[string]any) { kp[name] = 0 })
+		build("kdfparams."+name+":one", func(_, _, kp, _ map[string]any) { kp[name] = 1 })
+		build("kdfparams."+name+":string", func(_, _, kp, _ map[string]any) { kp[name] = "2" })
+		build("kdfparams."+name+":negative", func(_, _, kp, _ map[string]any) { kp[name] = -1 })
+	}
+	build("kdfparams:missing", func(_, cr, _, _ map[string]any) { delete(cr, "kdfparams") })
+	build("kdfparams:empty", func(_, cr, _, _ map[string]any) { cr["kdfparams"] = map[string]any{} })
+	build("cipherparams:missing", func(_, cr, _, _ map[string]any) { delete(cr, "cipherparams") })
+	build("kdf:missing", func(_, cr, _, _ map[string]any) { delete(cr, "kdf") })
+	build("kdf:other", func(_, cr, _, _ map[string]any) {
+		if cr["kdf"] == "scrypt" {
+			cr["kdf"] = "pbkdf2"
+		} else {
+			cr["kdf"] = "scrypt"
+		}
+	})
+	build("cipher:missing", func(_, cr, _, _ map[string]any) { delete(cr, "cipher") })
+	build("crypto:missing", func(top, _, _, _ map[string]any) { delete(top, "crypto") })
+	build("crypto:empty", func(top, _, _, _ map[string]any) { top["crypto"] = map[string]any{} })
+	build("mac:number", func(_, cr, _, _ map[string]any) { cr["mac"] = 0 })
+	build("mac:keccak-of-nothing", func(_, cr, _, _ map[string]any) { cr["mac"] = hex.EncodeToString(c52Keccak()) })
+	build("version:missing", func(top, _, _, _ map[string]any) { delete(top, "version") })
+	return out
 }
 
 type c52File struct {
@@ -389,7 +491,7 @@ func c52Matrix(k *c52Key, pass string, others []string, kdf c52KDF, dir string, 
 
 type c52Counters struct {
 	mu                                                sync.Mutex
-	right, wrong, equiv, corruptErr, corruptOrig, pan int64
+	right, wrong, equiv, corruptErr, corruptOrig, corruptWrong, pan int64
 }
 
 func (c *c52Counters) add(p *int64, n int64) { c.mu.Lock(); *p += n; c.mu.Unlock() }
@@ -439,7 +541,7 @@ func TestVerif_C52(t *testing.T) {
 		}
 		r.Rule("keys {1, n-1, fixed hash, 2^128, 0x00ff..ff (thorough +4)} x right passphrase in {\"\", a, pässwörd☃, 200*x, A, \"a \", NUL, aa, sha256(200*x) (thorough +6)} x KDF {scrypt N=2/P=1, N=4/P=2, N=16/P=1, pbkdf2 c=2, reference-only: scrypt dklen=64, pbkdf2 c=3 dklen=48} x every other passphrase as the wrong one: " +
 			"reference-written file -> DecryptKey; EncryptKey -> reference decrypt, DecryptKey; keyStorePassphrase.StoreKey -> GetKey; plus one LightScrypt (N=4096,P=6) round. " +
-			"corruption: every byte position of a scrypt and a pbkdf2 key file x {flip bit 0, flip bit 5, overwrite with '0', delete} -> GetKey and DecryptKey with the right passphrase. distinct = distinct (mode, key, passphrase, kdf) / (file, position, mutation)")
+			"corruption: every byte position of a scrypt, a pbkdf2 and a version-1 key file x {flip bit 0, flip bit 5, overwrite with '0', delete}, and structural variants of the crypto object (each hex member missing / null / empty / every shorter prefix and suffix / odd length / extended / re-cased; each KDF parameter missing / 0 / 1 / string / negative; members and objects missing) -> GetKey and DecryptKey with the right passphrase and with two wrong ones. distinct = distinct (mode, key, passphrase, kdf) / (file, position, mutation)")
 		r.Bound("keys", len(keys))
 		r.Bound("passphrases", len(passes))
 		r.Bound("kdf_settings", len(kdfs))
@@ -482,9 +584,10 @@ func TestVerif_C52(t *testing.T) {
 			}
 		})
 
-		// ---- corruption of every byte of two deterministic key files
+		// ---- corrupted and structurally altered key files
 		k := keys[2]
 		pass := passes[2]
+		wrongs := []string{"wrong-passphrase", ""} // HMAC key normal forms different from pass
 		d := make([]byte, 32)
 		k.D.FillBytes(d)
 		salt := sha256.Sum256([]byte("c52-corrupt-salt"))
@@ -492,85 +595,141 @@ func TestVerif_C52(t *testing.T) {
 		files := map[string][]byte{
 			"scrypt": c52RefEncrypt(d, k.key.Address, k.key.Id, pass, kdfs[0], salt[:], ivh[:16]),
 			"pbkdf2": c52RefEncrypt(d, k.key.Address, k.key.Id, pass, kdfs[3], salt[:], ivh[:16]),
+			"v1":     c52RefEncryptV1(d, k.key.Address, k.key.Id, pass, kdfs[0], salt[:], ivh[:16]),
 		}
-		type cjob struct {
-			file string
-			pos  int
-		}
-		var cjobs []cjob
-		for _, name := range []string{"scrypt", "pbkdf2"} {
-			r.Bound("corruption_file_bytes_"+name, len(files[name]))
-			for pos := range files[name] {
-				cjobs = append(cjobs, cjob{name, pos})
+		fileNames := []string{"scrypt", "pbkdf2", "v1"}
+		// the pristine files decrypt to the key with the right passphrase only
+		for _, name := range fileNames {
+			got, err := DecryptKey(files[name], pass)
+			if err != nil || c52SameKey(got, k) != nil {
+				r.Violation("C52 pristine "+name, fmt.Sprintf("reference-written %s key file does not decrypt with its passphrase: %v", name, err), nil)
 			}
 		}
 		var pmu sync.Mutex
 		panics := map[string]c52Case{}
 		panicMsg := map[string]string{}
 		ks := &keyStorePassphrase{scratch, 2, 1, false}
+		notePanic := func(c c52Case, where string, perr error) {
+			class := "panic-on-corrupted-keyfile " + c52PanicClass(perr.Error())
+			outc.add(&outc.pan, 1)
+			if r.Replaying() {
+				if os.Getenv("VERIF_C52_STRICT_PANIC") == "1" {
+					r.Violation("C52 "+class, where+": "+perr.Error(), c)
+				}
+				return
+			}
+			pmu.Lock()
+			if w, have := panics[class]; !have || fmt.Sprint(c.Mode, c.File, 1000+c.Pos, c.Mut) < fmt.Sprint(w.Mode, w.File, 1000+w.Pos, w.Mut) {
+				panics[class], panicMsg[class] = c, where+": "+perr.Error()
+			}
+			pmu.Unlock()
+		}
+		// checkBad: one altered key file under the right and under two wrong passphrases, through GetKey and DecryptKey.
+		//  - a wrong passphrase never decrypts, whatever was done to the file;
+		//  - the right passphrase gives an error or (GetKey) the original key; DecryptKey may return another key only
+		//    under another address (the IV is not covered by the MAC; the address check of GetKey catches that).
+		checkBad := func(c c52Case, bad []byte, path string) error {
+			if err := os.WriteFile(path, bad, 0o600); err != nil {
+				return fmt.Errorf("harness: %v", err)
+			}
+			defer os.Remove(path)
+			var got *Key
+			var gerr error
+			if perr := mc.Safely(func() error { got, gerr = ks.GetKey(k.key.Address, path, pass); return nil }); perr != nil {
+				notePanic(c, "GetKey(right passphrase)", perr)
+			} else if gerr == nil {
+				if err := c52SameKey(got, k); err != nil {
+					return fmt.Errorf("GetKey on the altered file returned a different key: %v", err)
+				}
+				outc.add(&outc.corruptOrig, 1)
+			} else {
+				outc.add(&outc.corruptErr, 1)
+			}
+			var raw *Key
+			var rerr error
+			if perr := mc.Safely(func() error { raw, rerr = DecryptKey(bad, pass); return nil }); perr == nil && rerr == nil {
+				if raw.Address == k.key.Address && raw.PrivateKey.D.Cmp(k.D) != 0 {
+					return fmt.Errorf("DecryptKey on the altered file returned private key %x for the original address", raw.PrivateKey.D)
+				}
+				if crypto.PubkeyToAddress(raw.PrivateKey.PublicKey) != raw.Address {
+					return fmt.Errorf("DecryptKey returned a key whose address field does not belong to its private key")
+				}
+			}
+			for _, q := range wrongs {
+				var wk *Key
+				var werr error
+				if perr := mc.Safely(func() error { wk, werr = DecryptKey(bad, q); return nil }); perr != nil {
+					notePanic(c, "DecryptKey(wrong passphrase)", perr)
+				} else if werr == nil {
+					return fmt.Errorf("DecryptKey on the altered file succeeded with the wrong passphrase %q (right one %q) and returned key %x", q, pass, wk.PrivateKey.D)
+				} else {
+					outc.add(&outc.corruptWrong, 1)
+				}
+				if perr := mc.Safely(func() error { wk, werr = ks.GetKey(k.key.Address, path, q); return nil }); perr != nil {
+					notePanic(c, "GetKey(wrong passphrase)", perr)
+				} else if werr == nil {
+					return fmt.Errorf("GetKey on the altered file succeeded with the wrong passphrase %q", q)
+				}
+			}
+			return nil
+		}
+		// (1) every byte position x {flip bit 0, flip bit 5, overwrite with '0', delete}
+		type cjob struct {
+			file string
+			pos  int
+		}
+		var cjobs []cjob
+		for _, name := range fileNames {
+			r.Bound("corruption_file_bytes_"+name, len(files[name]))
+			for pos := range files[name] {
+				cjobs = append(cjobs, cjob{name, pos})
+			}
+		}
 		r.Parallel(len(cjobs), func(i int) {
 			j := cjobs[i]
 			for _, mut := range c52Muts {
 				c := c52Case{Mode: "corrupt", File: j.file, Pos: j.pos, Mut: mut}
 				bad := c52Mutate(files[j.file], j.pos, mut)
 				path := filepath.Join(scratch, fmt.Sprintf("c-%s-%d-%s", j.file, j.pos, mut))
-				r.Case(c, func() error {
-					if err := os.WriteFile(path, bad, 0o600); err != nil {
-						return fmt.Errorf("harness: %v", err)
-					}
-					defer os.Remove(path)
-					var got, raw *Key
-					var gerr, rerr error
-					if perr := mc.Safely(func() error { got, gerr = ks.GetKey(k.key.Address, path, pass); return nil }); perr != nil {
-						class := "panic-on-corrupted-keyfile " + c52PanicClass(perr.Error())
-						outc.add(&outc.pan, 1)
-						if r.Replaying() {
-							r.Violation("C52 "+class, perr.Error(), c)
-							return nil
-						}
-						pmu.Lock()
-						if w, have := panics[class]; !have || fmt.Sprint(c.File, 1000+c.Pos, c.Mut) < fmt.Sprint(w.File, 1000+w.Pos, w.Mut) {
-							panics[class], panicMsg[class] = c, perr.Error()
-						}
-						pmu.Unlock()
-						return nil
-					}
-					if gerr == nil {
-						if err := c52SameKey(got, k); err != nil {
-							return fmt.Errorf("GetKey on the corrupted file returned a different key: %v", err)
-						}
-						outc.add(&outc.corruptOrig, 1)
-					} else {
-						outc.add(&outc.corruptErr, 1)
-					}
-					// DecryptKey alone: never a different private key under the original address
-					if perr := mc.Safely(func() error { raw, rerr = DecryptKey(bad, pass); return nil }); perr == nil && rerr == nil {
-						if raw.Address == k.key.Address && raw.PrivateKey.D.Cmp(k.D) != 0 {
-							return fmt.Errorf("DecryptKey on the corrupted file returned private key %x for the original address", raw.PrivateKey.D)
-						}
-						if crypto.PubkeyToAddress(raw.PrivateKey.PublicKey) != raw.Address {
-							return fmt.Errorf("DecryptKey returned a key whose address field does not belong to its private key")
-						}
-					}
-					return nil
-				})
+				r.Case(c, func() error { return checkBad(c, bad, path) })
 				r.Distinct(fmt.Sprint("c|", c.File, c.Pos, c.Mut))
 				if i%211 == 0 && mut == "flip-bit0" {
 					r.Sample(c)
 				}
 			}
 		})
-		// A panic on a key file with a corrupted byte (missing KDF parameter, missing IV) is a robustness defect of
-		// DecryptKey, but the property statement only speaks about which passphrases decrypt a key file and about
-		// store/load round trips; it does not demand error returns for malformed files. The panic classes are therefore
+		// (2) structural variants of the crypto object
+		type sjob struct {
+			file, variant string
+			bad           []byte
+		}
+		var sjobs []sjob
+		for _, name := range fileNames {
+			for _, v := range c52Structural(files[name]) {
+				sjobs = append(sjobs, sjob{name, v.name, v.file})
+			}
+		}
+		r.Bound("structural_variants", len(sjobs))
+		r.Parallel(len(sjobs), func(i int) {
+			j := sjobs[i]
+			c := c52Case{Mode: "structural", File: j.file, Mut: j.variant}
+			path := filepath.Join(scratch, fmt.Sprintf("s-%d", i))
+			r.Case(c, func() error { return checkBad(c, j.bad, path) })
+			r.Distinct(fmt.Sprint("s|", c.File, c.Mut))
+			if i%97 == 0 {
+				r.Sample(c)
+			}
+		})
+		// A panic on a malformed key file (missing KDF parameter, missing IV) is a robustness defect of DecryptKey,
+		// but the property statement only speaks about which passphrases decrypt a key file and about store/load
+		// round trips; it does not demand error returns for malformed files. The panic classes are therefore
 		// recorded as outcomes/bounds and only asserted with VERIF_C52_STRICT_PANIC=1.
 		for class, c := range panics {
-			r.Bound("observed "+class, fmt.Sprintf("file %s position %d %s", c.File, c.Pos, c.Mut))
+			r.Bound("observed "+class, fmt.Sprintf("%s file %s position %d %s", c.Mode, c.File, c.Pos, c.Mut))
 			if os.Getenv("VERIF_C52_STRICT_PANIC") != "1" {
 				continue
 			}
-			r.Violation("C52 "+class, fmt.Sprintf("GetKey panics on a key file with one corrupted byte (file %s, position %d, %s: %q -> %q)\n%s",
-				c.File, c.Pos, c.Mut, c52Context(files[c.File], c.Pos), c52Context(c52Mutate(files[c.File], c.Pos, c.Mut), c.Pos), panicMsg[class]), c)
+			r.Violation("C52 "+class, fmt.Sprintf("panic on an altered key file (%s, file %s, position %d, %s)\n%s", c.Mode, c.File, c.Pos, c.Mut, panicMsg[class]), c)
 		}
 		r.OutcomeN("right-passphrase:key-returned", outc.right)
 		r.OutcomeN("wrong-passphrase:ErrDecrypt", outc.wrong)
@@ -578,6 +737,7 @@ func TestVerif_C52(t *testing.T) {
 		r.OutcomeN("corrupted:error", outc.corruptErr)
 		r.OutcomeN("corrupted:original-key", outc.corruptOrig)
 		r.OutcomeN("corrupted:panic", outc.pan)
+		r.OutcomeN("corrupted:wrong-passphrase-rejected", outc.corruptWrong)
 	})
 }
 
